@@ -9,7 +9,13 @@
      (A2) a 64-bit load through such an address, and the registers a callee leaves behind,
           do not yield pointers into the frame (their taint is clear);
      (A3) a call behaves as its callee's claim says (call_ok) — the claim of every callee is
-          itself a checked obligation of the same kind.
+          itself a checked obligation of the same kind;
+     (A4) (translator) a zero-extended 32-bit result is not a frame pointer: instructions with a 32-bit
+          destination are emitted as clobbers without taint sources.
+   Values are mathematical integers; tracked numbers (Num) are kept inside [0, 2^31) so that they coincide
+   with the machine's 32/64-bit, signed/unsigned readings (norm_small), which is what lets the edges of a
+   `cmp r,k ; jcc` terminator (gcond) refine them.  Ranges with stride (SymR, Num) make frame-relative
+   indexed stores and pointers stepping through the frame checkable (hull_store_sound).
    abi_check_sound: if check_gclaim accepts a function then on EVERY path (all branch outcomes,
    all clobber values, any number of loop iterations) that reaches a ret / tail jump: rsp is the
    entry rsp, every claimed register holds its entry value, DF is clear, no MXCSR/x87-CW write
@@ -82,6 +88,18 @@ Section Gpr.
            mem_store c c' a sz (match src with Some r => if Z.eqb sz 8 then Some (cr c r) else None | None => None end) /\
            cbad c' = (cbad c || (R <? a + sz))
       else same_mem c c' /\ cbad c' = cbad c                     (* (A1) *)
+    | GStoreIdx b i sc k sz =>
+      same_regs c c' /\ same_al c c' /\ cdf c' = cdf c /\
+      (if ct (cr c b) && negb (ct (cr c i))
+       then let a := cv (cr c b) + cv (cr c i) * sc + k in
+            mem_store c c' a sz None /\ cbad c' = (cbad c || (R <? a + sz))
+       else (ct (cr c b) = false -> ct (cr c i) = false -> same_mem c c' /\ cbad c' = cbad c))   (* (A1) *)
+    | GConst d k =>
+      set_reg c c' d {| cv := k; ct := false |} /\
+      same_mem c c' /\ same_al c c' /\ cdf c' = cdf c /\ cbad c' = cbad c
+    | GXchg a b =>
+      (forall x, cr c' x = if Nat.eqb x b then cr c a else if Nat.eqb x a then cr c b else cr c x) /\
+      same_mem c c' /\ same_al c c' /\ cdf c' = cdf c /\ cbad c' = cbad c
     | GStoreNS m =>
       same_regs c c' /\ same_al c c' /\ cdf c' = cdf c /\
       (untainted_srcs c m -> same_mem c c' /\ cbad c' = cbad c)    (* (A1) *)
@@ -106,6 +124,10 @@ Section Gpr.
   Definition gv (c : cstate) (v : aval) (x : cval) : Prop :=
     match v with
     | Sym b k => cv x = bval c b + k /\ ct x = stackish_base b
+    | SymR b lo hi st =>
+      ct x = stackish_base b /\
+      exists off, cv x = bval c b + off /\ lo <= off <= hi /\ (st | off - lo)
+    | Num lo hi st => ct x = false /\ lo <= cv x <= hi /\ (st | cv x - lo)
     | Top => ct x = false
     | STop => True
     end.
@@ -130,21 +152,29 @@ Section Gpr.
 
   Lemma aval_eqb_eq : forall a b, aval_eqb a b = true -> a = b.
   Proof.
-    intros [b1 k1| |] [b2 k2| |]; cbn; intros H; try discriminate; auto.
-    apply andb_true_iff in H. destruct H as [H1 H2]. apply base_eqb_eq in H1. apply Z.eqb_eq in H2. now subst.
+    intros [b1 k1|b1 l1 h1 s1|l1 h1 s1| |] [b2 k2|b2 l2 h2 s2|l2 h2 s2| |]; cbn; intros H; try discriminate; auto.
+    - apply andb_true_iff in H. destruct H as [H1 H2]. apply base_eqb_eq in H1. apply Z.eqb_eq in H2. now subst.
+    - repeat (apply andb_true_iff in H; destruct H as [H ?]). apply base_eqb_eq in H.
+      repeat match goal with E : (_ =? _) = true |- _ => apply Z.eqb_eq in E end. now subst.
+    - repeat (apply andb_true_iff in H; destruct H as [H ?]).
+      repeat match goal with E : (_ =? _) = true |- _ => apply Z.eqb_eq in E end. now subst.
   Qed.
 
   Lemma gv_same_al : forall c c' v x, same_al c c' -> gv c v x -> gv c' v x.
   Proof.
-    intros c c' v x H. destruct v as [b k| |]; cbn; auto.
-    destruct b; cbn; auto. now rewrite H.
+    intros c c' v x H. destruct v as [b k|b lo hi st|lo hi st| |]; cbn; auto.
+    - destruct b; cbn; auto. now rewrite H.
+    - destruct b; cbn; auto. now rewrite H.
   Qed.
 
   Lemma bval_same_al : forall c c' b, same_al c c' -> bval c' b = bval c b.
   Proof. intros. destruct b; cbn; auto. Qed.
 
   Lemma nonstackish_untainted : forall c v x, gv c v x -> stackish v = false -> ct x = false.
-  Proof. intros c v x H Hs. destruct v; cbn in *; try discriminate; [destruct H; congruence | auto]. Qed.
+  Proof.
+    intros c v x H Hs. destruct v; cbn in *; try discriminate; auto.
+    - destruct H; congruence. - destruct H; congruence. - tauto.
+  Qed.
 
   Lemma getr_default : forall a r, length (ar a) = 16%nat -> (16 <= r)%nat -> getr a r = STop.
   Proof. intros. unfold getr. apply nth_overflow. lia. Qed.
@@ -242,36 +272,39 @@ Section Gpr.
     - intros x Hx. rewrite Hm. auto.
   Qed.
 
-  (* a store into the frame: the slots that survive kill_overlap still describe the memory *)
-  Lemma store_slots : forall a c c' b k sz vo,
-    ggamma a c -> stackish_base b = true -> below_frame a b k sz = true -> 0 < sz ->
-    mem_store c c' (bval c b + k) sz vo -> same_al c c' ->
-    (forall b' k' v, In (b', k', v) (kill_overlap a b k sz) -> gv c' v (cm c' (bval c' b' + k'))) /\
+  (* a store of sz bytes at concrete address a that lies inside the hull [b+k, b+k+hsz): the slots that
+     survive kill_overlap of the hull still describe the memory *)
+  Lemma store_slots : forall a c c' b k hsz adr sz vo,
+    ggamma a c -> stackish_base b = true -> below_frame a b k hsz = true ->
+    bval c b + k <= adr -> adr + sz <= bval c b + k + hsz ->
+    mem_store c c' adr sz vo -> same_al c c' ->
+    (forall b' k' v, In (b', k', v) (kill_overlap a b k hsz) -> gv c' v (cm c' (bval c' b' + k'))) /\
     (forall x, R + 8 <= x -> ct (cm c' x) = false) /\
-    (R <? bval c b + k + sz) = false.
+    (R <? adr + sz) = false.
   Proof.
-    intros a c c' b k sz vo Hg Hs Hbf Hsz [Hst _] Ha.
+    intros a c c' b k hsz adr sz vo Hg Hs Hbf Hlo Hhi [Hst _] Ha.
     unfold below_frame in Hbf. destruct (upper a b k) as [u|] eqn:Eu; [|discriminate].
     apply Z.leb_le in Hbf. pose proof (upper_sound a c b k u Hg Hs Eu) as Hup.
     split; [|split].
     - intros b' k' v Hin. unfold kill_overlap in Hin. apply filter_In in Hin. destruct Hin as [Hin Hd].
-      pose proof (disjoint_sound a c b k sz b' k' Hg Hs Hd) as Hdis.
+      pose proof (disjoint_sound a c b k hsz b' k' Hg Hs Hd) as Hdis.
       rewrite (bval_same_al c c') by auto. rewrite Hst by lia.
       eapply gv_same_al; eauto. destruct Hg as [_ [_ [Hsl _]]]. now apply Hsl.
     - intros x Hx. rewrite Hst by lia. destruct Hg as [_ [_ [_ [_ [_ [_ Hc]]]]]]. auto.
     - apply Z.ltb_ge. lia.
   Qed.
 
-  Lemma ggamma_store : forall a c c' b k sz vo ar' extra,
-    ggamma a c -> stackish_base b = true -> below_frame a b k sz = true -> 0 < sz ->
-    mem_store c c' (bval c b + k) sz vo -> same_al c c' -> cdf c' = cdf c ->
-    cbad c' = (cbad c || (R <? bval c b + k + sz)) ->
+  Lemma ggamma_store : forall a c c' b k hsz adr sz vo ar' extra,
+    ggamma a c -> stackish_base b = true -> below_frame a b k hsz = true ->
+    bval c b + k <= adr -> adr + sz <= bval c b + k + hsz ->
+    mem_store c c' adr sz vo -> same_al c c' -> cdf c' = cdf c ->
+    cbad c' = (cbad c || (R <? adr + sz)) ->
     length ar' = 16%nat -> (forall r, (r < 16)%nat -> gv c' (nth r ar' STop) (cr c' r)) ->
     (forall b' k' v, In (b', k', v) extra -> gv c' v (cm c' (bval c' b' + k'))) ->
-    ggamma {| ar := ar'; asl := extra ++ kill_overlap a b k sz; abd := abd a; adf := adf a |} c'.
+    ggamma {| ar := ar'; asl := extra ++ kill_overlap a b k hsz; abd := abd a; adf := adf a |} c'.
   Proof.
-    intros a c c' b k sz vo ar' extra Hg Hs Hbf Hsz Hst Ha Hdf Hbad Hl Hr Hex.
-    destruct (store_slots a c c' b k sz vo Hg Hs Hbf Hsz Hst Ha) as [H1 [H2 H3]].
+    intros a c c' b k hsz adr sz vo ar' extra Hg Hs Hbf Hlo Hhi Hst Ha Hdf Hbad Hl Hr Hex.
+    destruct (store_slots a c c' b k hsz adr sz vo Hg Hs Hbf Hlo Hhi Hst Ha) as [H1 [H2 H3]].
     destruct Hg as [_ [_ [_ [Hb [Hd [Hbd _]]]]]].
     repeat split; cbn [ar asl abd adf]; auto.
     - intros b' k' v Hin. apply in_app_or in Hin. destruct Hin; auto.
@@ -325,8 +358,9 @@ Section Gpr.
     (forall i, cal c' i = if Pos.eqb i id then z else cal c i) ->
     mentions id v = false -> gv c v x -> gv c' v x.
   Proof.
-    intros c c' id z v x Hc Hm H. destruct v as [b k| |]; cbn in *; auto.
-    destruct b as [r|i]; cbn in *; auto. rewrite Hc, Hm. auto.
+    intros c c' id z v x Hc Hm H. destruct v as [b k|b lo hi st|lo hi st| |]; cbn in *; auto.
+    - destruct b as [r|i]; cbn in *; auto. rewrite Hc, Hm. auto.
+    - destruct b as [r|i]; cbn in *; auto. rewrite Hc, Hm. auto.
   Qed.
 
   Lemma getr_forget : forall a id r, getr (forget_al a id) r = if mentions id (getr a r) then STop else getr a r.
@@ -380,18 +414,53 @@ Section Gpr.
       + eapply gv_same_al; eauto.
   Qed.
 
+  Lemma mk_none_sound : forall c lo hi st x,
+    ct x = false -> lo <= cv x <= hi -> (st | cv x - lo) -> gv c (mk None lo hi st) x.
+  Proof. intros. unfold mk. destruct ((0 <=? lo) && (hi <? NUM_MAX)); cbn; auto. Qed.
+
+  (* the range view describes the value *)
+  Lemma rng_sound : forall c v x ob lo hi st, rng v = Some (ob, lo, hi, st) -> gv c v x ->
+    exists off, lo <= off <= hi /\
+      match ob with
+      | Some b => cv x = bval c b + off /\ ct x = stackish_base b
+      | None => cv x = off /\ ct x = false
+      end.
+  Proof.
+    intros c v x ob lo hi st Hr Hv. destruct v as [b k|b l h s0|l h s0| |]; cbn in Hr; try discriminate;
+      injection Hr as <- <- <- <-; cbn in Hv.
+    - destruct Hv. exists k. split; [lia|auto].
+    - destruct Hv as [Ht [off [H1 [H2 _]]]]. exists off. auto.
+    - destruct Hv as [Ht [H1 _]]. exists (cv x). auto.
+  Qed.
+
+  (* a store of sz bytes somewhere inside the hull [bb+k, bb+k+hsz) of the frame, registers unchanged *)
+  Lemma hull_store_sound : forall a c c' bb k hsz adr sz,
+    ggamma a c -> stackish_base bb = true -> below_frame a bb k hsz = true ->
+    bval c bb + k <= adr -> adr + sz <= bval c bb + k + hsz ->
+    mem_store c c' adr sz None -> same_regs c c' -> same_al c c' -> cdf c' = cdf c ->
+    cbad c' = (cbad c || (R <? adr + sz)) ->
+    ggamma (havoc_range a bb k hsz) c'.
+  Proof.
+    intros a c c' bb k hsz adr sz Hg Hs Hbf Hlo Hhi Hst Hreg Hal Hdf Hbad.
+    pose proof Hg as [Hl _].
+    unfold havoc_range. change (kill_overlap a bb k hsz) with ([] ++ kill_overlap a bb k hsz).
+    eapply ggamma_store; eauto.
+    - eapply regs_same_gv; eauto.
+    - intros ? ? ? [].
+  Qed.
+
   Lemma gtf_sound : forall i a a' c c',
     gtf claims i a = Some a' -> ggamma a c -> gstep i c c' -> ggamma a' c'.
   Proof.
     intros i a a' c c' Htf Hg Hs. destruct i; cbn [gtf gstep] in *.
     - (* GPush *)
-      destruct (getr a RSP) as [b k| |] eqn:Ersp; try discriminate.
+      destruct (getr a RSP) as [b k|? ? ? ?|? ? ?| |] eqn:Ersp; try discriminate.
       destruct (stackish_base b && below_frame a b (k - 8) 8) eqn:E; [|discriminate].
       apply andb_true_iff in E. destruct E as [E1 E2]. apply some_inj in Htf. subst a'.
       destruct Hs as [Hreg [Hst [Hal [Hdf Hbad]]]].
       eapply push_sound; eauto. apply gv_getr; auto.
     - (* GPushX *)
-      destruct (getr a RSP) as [b k| |] eqn:Ersp; try discriminate.
+      destruct (getr a RSP) as [b k|? ? ? ?|? ? ?| |] eqn:Ersp; try discriminate.
       destruct (stackish_base b && below_frame a b (k - 8) 8) eqn:E; [|discriminate].
       apply andb_true_iff in E. destruct E as [E1 E2]. apply some_inj in Htf. subst a'.
       destruct Hs as [w [Hw [Hreg [Hst [Hal [Hdf Hbad]]]]]].
@@ -399,7 +468,7 @@ Section Gpr.
       destruct (any_stackish a srcs) eqn:Ea; cbn; auto.
       apply Hw. eapply any_stackish_false; eauto.
     - (* GPop *)
-      destruct (getr a RSP) as [b k| |] eqn:Ersp; try discriminate.
+      destruct (getr a RSP) as [b k|? ? ? ?|? ? ?| |] eqn:Ersp; try discriminate.
       destruct (stackish_base b) eqn:E1; [|discriminate].
       pose proof (gv_getr a c RSP Hg) as Hrsp. rewrite Ersp in Hrsp. cbn in Hrsp. destruct Hrsp as [Hcv Hct].
       destruct Hs as [Hreg [Hm [Hal [Hdf Hbad]]]].
@@ -426,12 +495,16 @@ Section Gpr.
     - (* GLea *)
       apply some_inj in Htf. subst a'. destruct Hs as [Hreg [Hm [Hal [Hdf Hbad]]]].
       eapply setr_regs_sound; eauto.
-      pose proof (gv_getr a c s Hg) as H. destruct (getr a s) as [b j| |]; cbn in *; auto.
-      destruct H as [H1 H2]. split; [lia | auto].
+      pose proof (gv_getr a c s Hg) as H. destruct (getr a s) as [b j|b lo hi st|lo hi st| |]; cbn [gv cv ct] in *; auto.
+      + destruct H as [H1 H2]. split; [lia | auto].
+      + destruct H as [H1 [off [H2 [H3 H4]]]]. split; auto. exists (off + k). repeat split; try lia.
+        replace (off + k - (lo + k)) with (off - lo) by lia. auto.
+      + destruct H as [H1 [H2 H3]]. apply mk_none_sound; cbn [cv ct]; auto; try lia.
+        replace (cv (cr c s) + k - (lo + k)) with (cv (cr c s) - lo) by lia. auto.
     - (* GLoad *)
       destruct Hs as [Hld [Hm [Hal [Hdf Hbad]]]].
       pose proof (gv_getr a c b Hg) as Hb.
-      destruct (getr a b) as [bb j| |] eqn:Eb.
+      destruct (getr a b) as [bb j|bb lo hi st|lo hi st| |] eqn:Eb.
       + cbn in Hb. destruct Hb as [Hcv Hct].
         destruct (stackish_base bb) eqn:Es; apply some_inj in Htf; subst a'.
         * rewrite Hct in Hld. eapply setr_regs_sound; eauto.
@@ -439,6 +512,12 @@ Section Gpr.
           apply load_val_sound; auto.
         * rewrite Hct in Hld. destruct Hld as [w [Hw Hreg]].
           eapply setr_regs_sound; eauto.
+      + cbn in Hb. destruct Hb as [Hct _]. apply some_inj in Htf; subst a'.
+        destruct (stackish_base bb) eqn:Es.
+        * destruct (ct (cr c b)); [|destruct Hld as [w [Hw Hreg]]]; eapply setr_regs_sound; eauto; cbn; auto.
+        * rewrite Hct in Hld. destruct Hld as [w [Hw Hreg]]. eapply setr_regs_sound; eauto.
+      + cbn in Hb. destruct Hb as [Hct _]. apply some_inj in Htf; subst a'. rewrite Hct in Hld.
+        destruct Hld as [w [Hw Hreg]]. eapply setr_regs_sound; eauto.
       + cbn in Hb. apply some_inj in Htf; subst a'. rewrite Hb in Hld. destruct Hld as [w [Hw Hreg]].
         eapply setr_regs_sound; eauto.
       + apply some_inj in Htf; subst a'.
@@ -461,7 +540,7 @@ Section Gpr.
         - rewrite Hdf. auto.
         - congruence.
         - intros x Hx. rewrite Hm. auto. }
-      destruct (getr a d) as [b k| |] eqn:Ed.
+      destruct (getr a d) as [b k|b lo hi st|lo hi st| |] eqn:Ed.
       + cbn in Hdv. destruct Hdv as [Hcv Hct].
         destruct (stackish_base b) eqn:Es.
         * destruct (upper a b k) as [u|] eqn:Eu; apply some_inj in Htf; subst a'.
@@ -473,12 +552,15 @@ Section Gpr.
                 ** auto.
           -- apply (Hfin STop); cbn; auto.
         * apply some_inj in Htf; subst a'. apply (Hfin Top); cbn; auto; try congruence.
+      + cbn in Hdv. destruct Hdv as [Hct _]. apply some_inj in Htf; subst a'.
+        destruct (stackish_base b) eqn:Es; [apply (Hfin STop) | apply (Hfin Top)]; cbn; auto.
+      + cbn in Hdv. destruct Hdv as [Hct _]. apply some_inj in Htf; subst a'. apply (Hfin Top); cbn; auto.
       + apply some_inj in Htf; subst a'. apply (Hfin Top); cbn; auto.
       + apply some_inj in Htf; subst a'. apply (Hfin STop); cbn; auto.
     - (* GStore *)
       destruct Hs as [Hreg [Hal [Hdf Hst]]].
       pose proof (gv_getr a c b Hg) as Hb.
-      destruct (getr a b) as [bb j| |] eqn:Eb.
+      destruct (getr a b) as [bb j|bb lo hi st|lo hi st| |] eqn:Eb.
       + cbn in Hb. destruct Hb as [Hcv Hct].
         destruct (stackish_base bb) eqn:Es.
         * rewrite Hct in Hst. destruct Hst as [Hst Hbad].
@@ -487,16 +569,14 @@ Section Gpr.
           assert (Ea : cv (cr c b) + k = bval c bb + (j + k)) by lia. rewrite Ea in Hst, Hbad.
           pose proof Hg as [Hl _].
           assert (Hhav : ggamma (havoc_range a bb (j + k) sz) c').
-          { unfold havoc_range. change (kill_overlap a bb (j + k) sz) with ([] ++ kill_overlap a bb (j + k) sz).
-            eapply ggamma_store; eauto.
-            - eapply regs_same_gv; eauto.
-            - intros ? ? ? []. }
+          { eapply hull_store_sound with (adr := bval c bb + (j + k)) (sz := sz); eauto; try lia.
+            destruct Hst as [Hst1 _]. split; auto. }
           destruct src as [r|].
           -- destruct (Z.eqb sz 8) eqn:E8; apply some_inj in Htf; subst a'; auto.
              apply Z.eqb_eq in E8. subst sz.
              unfold set_slot.
              change ((bb, j + k, getr a r) :: kill_overlap a bb (j + k) 8) with ([(bb, j + k, getr a r)] ++ kill_overlap a bb (j + k) 8).
-             eapply ggamma_store; eauto.
+             eapply ggamma_store with (adr := bval c bb + (j + k)) (sz := 8); eauto; try lia.
              ++ eapply regs_same_gv; eauto.
              ++ intros b' k' v' [Hin|[]]. inversion Hin; subst b' k' v'.
                 rewrite (bval_same_al c c') by auto. destruct Hst as [_ Hst]. rewrite Hst.
@@ -504,6 +584,18 @@ Section Gpr.
           -- apply some_inj in Htf; subst a'; auto.
         * apply some_inj in Htf; subst a'. rewrite Hct in Hst. destruct Hst as [Hm Hbad].
           eapply ggamma_same; eauto.
+      + cbn in Hb. destruct Hb as [Hct [off [Hcv [Hoff _]]]].
+        destruct (stackish_base bb) eqn:Es.
+        * rewrite Hct in Hst. destruct Hst as [Hst Hbad].
+          match type of Htf with (if ?X then _ else _) = _ => destruct X eqn:E; [|discriminate] end.
+          apply andb_true_iff in E. destruct E as [E E2]. apply andb_true_iff in E. destruct E as [E0 E1].
+          apply Z.ltb_lt in E0. apply Z.leb_le in E1. apply some_inj in Htf; subst a'.
+          eapply hull_store_sound with (adr := cv (cr c b) + k) (sz := sz); eauto; try lia.
+          destruct Hst as [Hst1 _]. split; auto.
+        * apply some_inj in Htf; subst a'. rewrite Hct in Hst. destruct Hst as [Hm Hbad].
+          eapply ggamma_same; eauto.
+      + cbn in Hb. destruct Hb as [Hct _]. apply some_inj in Htf; subst a'. rewrite Hct in Hst.
+        destruct Hst as [Hm Hbad]. eapply ggamma_same; eauto.
       + cbn in Hb. apply some_inj in Htf; subst a'. rewrite Hb in Hst. destruct Hst as [Hm Hbad].
         eapply ggamma_same; eauto.
       + discriminate.
@@ -512,6 +604,53 @@ Section Gpr.
       destruct Hs as [Hreg [Hal [Hdf Hst]]].
       destruct (Hst (any_stackish_false a c addr Hg E)) as [Hm Hbad].
       eapply ggamma_same; eauto.
+    - (* GStoreIdx *)
+      destruct Hs as [Hreg [Hal [Hdf Hst]]].
+      pose proof (gv_getr a c b Hg) as Hb. pose proof (gv_getr a c i Hg) as Hi.
+      assert (Hns : (stackish (getr a b) || stackish (getr a i)) = false -> ggamma a c').
+      { intros E. apply orb_false_iff in E. destruct E as [Eb Ei].
+        pose proof (nonstackish_untainted c _ _ Hb Eb) as Tb. pose proof (nonstackish_untainted c _ _ Hi Ei) as Ti.
+        rewrite Tb in Hst. cbn [andb] in Hst. destruct (Hst eq_refl Ti) as [Hm Hbad].
+        eapply ggamma_same; eauto. }
+      destruct (rng (getr a b)) as [[[[ob blo] bhi] bst]|] eqn:Er.
+      + destruct ob as [bb|].
+        * destruct (getr a i) as [?b ?k|? ? ? ?|ilo ihi ist| |] eqn:Ei;
+            try (destruct (stackish (getr a b) || stackish _) eqn:E; [discriminate|]; apply some_inj in Htf; subst a'; now apply Hns).
+          destruct (stackish_base bb) eqn:Es.
+          -- match type of Htf with (if ?X then _ else _) = _ => destruct X eqn:E; [|discriminate] end.
+             repeat (apply andb_true_iff in E; destruct E as [E ?]).
+             apply some_inj in Htf; subst a'.
+             destruct (rng_sound c _ _ _ _ _ _ Er Hb) as [off [Hoff [Hcv Hct]]].
+             cbn in Hi. destruct Hi as [Hti [Hiv _]].
+             rewrite Hct, Es, Hti in Hst. cbn [andb negb] in Hst. destruct Hst as [Hst Hbad].
+             apply Z.ltb_lt in E. repeat match goal with X : (_ <=? _) = true |- _ => apply Z.leb_le in X end.
+             eapply hull_store_sound with (adr := cv (cr c b) + cv (cr c i) * sc + k) (sz := sz); eauto; try nia.
+          -- apply some_inj in Htf; subst a'.
+             destruct (rng_sound c _ _ _ _ _ _ Er Hb) as [off [Hoff [Hcv Hct]]].
+             cbn in Hi. destruct Hi as [Hti _]. pose proof Hct as Hct'. rewrite Es in Hct'. rewrite Hct' in Hst. cbn [andb] in Hst.
+             destruct (Hst eq_refl Hti) as [Hm Hbad]. eapply ggamma_same; eauto.
+        * destruct (stackish (getr a b) || stackish (getr a i)) eqn:E; [discriminate|].
+          apply some_inj in Htf; subst a'. now apply Hns.
+      + destruct (stackish (getr a b) || stackish (getr a i)) eqn:E; [discriminate|].
+        apply some_inj in Htf; subst a'. now apply Hns.
+    - (* GConst *)
+      apply some_inj in Htf. subst a'. destruct Hs as [Hreg [Hm [Hal [Hdf Hbad]]]].
+      eapply setr_regs_sound; eauto. apply mk_none_sound; cbn [cv ct]; auto; try lia.
+      replace (c0 - c0) with 0 by lia. apply Z.divide_0_r.
+    - (* GXchg *)
+      apply some_inj in Htf. subst a'. destruct Hs as [Hreg [Hm [Hal [Hdf Hbad]]]].
+      pose proof Hg as [Hl [Hr _]].
+      eapply ggamma_regs; eauto.
+      + unfold setr; cbn [ar]. now rewrite !upd_length.
+      + intros x Hlt. rewrite getr_setr by (unfold setr; cbn [ar]; now rewrite upd_length).
+        rewrite getr_setr by auto. rewrite Hreg.
+        destruct (Nat.eqb x b) eqn:Ex; cbn [andb].
+        * apply Nat.eqb_eq in Ex. subst x. replace (b <? 16)%nat with true by (symmetry; now apply Nat.ltb_lt).
+          eapply gv_same_al; eauto. apply gv_getr; auto.
+        * destruct (Nat.eqb x a0) eqn:Ex2; cbn [andb].
+          -- apply Nat.eqb_eq in Ex2. subst x. replace (a0 <? 16)%nat with true by (symmetry; now apply Nat.ltb_lt).
+             eapply gv_same_al; eauto. apply gv_getr; auto.
+          -- eapply gv_same_al; eauto.
     - (* GClob *)
       apply some_inj in Htf; subst a'. destruct Hs as [Hreg [Hm [Hal [Hdf Hbad]]]].
       pose proof Hg as [Hl [Hr _]].
@@ -522,7 +661,7 @@ Section Gpr.
           apply Hreg. eapply any_stackish_false; eauto.
         * rewrite Hreg. eapply gv_same_al; eauto.
     - (* GCall *)
-      destruct (getr a RSP) as [b k| |] eqn:Ersp; try discriminate.
+      destruct (getr a RSP) as [b k|? ? ? ?|? ? ?| |] eqn:Ersp; try discriminate.
       match type of Htf with (if ?X then _ else _) = _ => destruct X eqn:E; [|discriminate] end.
       apply andb_true_iff in E. destruct E as [E E3]. apply andb_true_iff in E. destruct E as [E1 E2].
       apply some_inj in Htf; subst a'.
@@ -583,10 +722,33 @@ Section Gpr.
       eapply IH; eauto. eapply gtf_sound; eauto.
   Qed.
 
+  Lemma divides_sound : forall st x, divides st x = true -> (st | x).
+  Proof.
+    intros st x H. unfold divides in H. destruct (st =? 0) eqn:E.
+    - apply Z.eqb_eq in E. apply Z.eqb_eq in H. subst. apply Z.divide_0_r.
+    - apply Z.eqb_neq in E. apply Z.eqb_eq in H. apply Z.mod_divide; auto.
+  Qed.
+
   Lemma aval_leq_sound : forall c va vb x, aval_leq va vb = true -> gv c va x -> gv c vb x.
   Proof.
-    intros c va vb x Hl Hv. destruct vb as [b k| |]; cbn in Hl.
+    intros c va vb x Hl Hv. destruct vb as [b k|bb lo hi st|lo hi st| |]; cbn [aval_leq] in Hl.
     - apply aval_eqb_eq in Hl. now subst.
+    - destruct va as [b k|b l h s0|l h s0| |]; cbn [rng rng_leq] in Hl; try discriminate;
+        repeat (apply andb_true_iff in Hl; destruct Hl as [Hl ?]); cbn [obase_eqb] in Hl; try discriminate;
+        apply base_eqb_eq in Hl; subst b;
+        repeat match goal with X : (_ <=? _) = true |- _ => apply Z.leb_le in X end;
+        repeat match goal with X : divides _ _ = true |- _ => apply divides_sound in X end; cbn in Hv |- *.
+      + destruct Hv as [Hcv Hct]. split; auto. exists k. repeat split; auto; lia.
+      + destruct Hv as [Hct [off [Hcv [Hoff Hd]]]]. split; auto. exists off. repeat split; auto; try lia.
+        replace (off - lo) with ((off - l) + (l - lo)) by lia. apply Z.divide_add_r; auto.
+        eapply Z.divide_trans; eauto.
+    - destruct va as [b k|b l h s0|l h s0| |]; cbn [rng rng_leq] in Hl; try discriminate;
+        repeat (apply andb_true_iff in Hl; destruct Hl as [Hl ?]); cbn [obase_eqb] in Hl; try discriminate;
+        repeat match goal with X : (_ <=? _) = true |- _ => apply Z.leb_le in X end;
+        repeat match goal with X : divides _ _ = true |- _ => apply divides_sound in X end; cbn in Hv |- *.
+      destruct Hv as [Hct [Hr Hd]]. repeat split; auto; try lia.
+      replace (cv x - lo) with ((cv x - l) + (l - lo)) by lia. apply Z.divide_add_r; auto.
+      eapply Z.divide_trans; eauto.
     - cbn. apply negb_true_iff in Hl. eapply nonstackish_untainted; eauto.
     - exact I.
   Qed.
@@ -627,6 +789,71 @@ Section Gpr.
 
   Definition gbstep (b : block) (c c' : cstate) : Prop := gsteps (bg b) c c'.
 
+  (* when may an edge of a `cmp r,k ; jcc` terminator be followed: the machine comparison of the low 32 or
+     all 64 bits, unsigned or signed *)
+  Definition norm (sg w64 : bool) (v : Z) : Z :=
+    let m := if w64 then 18446744073709551616 else 4294967296 in
+    let u := v mod m in
+    if sg then (if u <? m / 2 then u else u - m) else u.
+  Definition rel_holds (rl : rel) (x y : Z) : Prop :=
+    match rl with RLt => x < y | RLe => x <= y | RGt => x > y | RGe => x >= y end.
+  Definition gcond (t : term) (e : bool) (c : cstate) : Prop :=
+    match t with
+    | TJcmp sg w64 rl r k _ _ =>
+      if e then rel_holds rl (norm sg w64 (cv (cr c r))) (norm sg w64 k)
+      else ~ rel_holds rl (norm sg w64 (cv (cr c r))) (norm sg w64 k)
+    | _ => True
+    end.
+
+  Lemma norm_small : forall sg w64 v, 0 <= v < NUM_MAX -> norm sg w64 v = v.
+  Proof.
+    intros sg w64 v Hv. unfold NUM_MAX in Hv. unfold norm.
+    assert (E1 : 18446744073709551616 / 2 = 9223372036854775808) by reflexivity.
+    assert (E2 : 4294967296 / 2 = 2147483648) by reflexivity.
+    destruct w64.
+    - rewrite Z.mod_small by lia. destruct sg; auto. rewrite E1.
+      destruct (v <? 9223372036854775808) eqn:E; auto. apply Z.ltb_ge in E. lia.
+    - rewrite Z.mod_small by lia. destruct sg; auto. rewrite E2.
+      destruct (v <? 2147483648) eqn:E; auto. apply Z.ltb_ge in E. lia.
+  Qed.
+
+  Lemma edge_bound_sound : forall tm e r b c,
+    edge_bound tm e = Some (r, b) -> gcond tm e c -> 0 <= cv (cr c r) < NUM_MAX -> cv (cr c r) <= b.
+  Proof.
+    intros tm e r b c He Hc Hv. destruct tm; cbn in He; try discriminate.
+    destruct ((0 <=? k) && (k <? NUM_MAX)) eqn:Ek; [|discriminate].
+    apply andb_true_iff in Ek. destruct Ek as [K1 K2]. apply Z.leb_le in K1. apply Z.ltb_lt in K2.
+    cbn in Hc.
+    destruct rl, e; inversion He; subst; rewrite !norm_small in Hc by lia; cbn in Hc; lia.
+  Qed.
+
+  Lemma ub_refine_sound : forall c v x bound,
+    gv c v x -> (0 <= cv x < NUM_MAX -> cv x <= bound) -> gv c (ub_refine v bound) x.
+  Proof.
+    intros c v x bound Hv Hb. destruct v as [b k|b lo hi st|lo hi st| |]; cbn [ub_refine]; auto.
+    destruct ((0 <=? lo) && (hi <? NUM_MAX) && (0 <? st)) eqn:E; auto.
+    apply andb_true_iff in E. destruct E as [E E3]. apply andb_true_iff in E. destruct E as [E1 E2].
+    apply Z.leb_le in E1. apply Z.ltb_lt in E2. apply Z.ltb_lt in E3.
+    cbn in Hv. destruct Hv as [Hct [Hr Hd]].
+    destruct (Z.min hi bound <? lo) eqn:E4; [cbn; auto|]. apply Z.ltb_ge in E4.
+    cbn. repeat split; auto; try lia.
+    destruct Hd as [q Hq]. assert (Hle : cv x <= Z.min hi bound) by (specialize (Hb ltac:(lia)); lia).
+    assert (q <= (Z.min hi bound - lo) / st) by (apply Z.div_le_lower_bound; nia).
+    nia.
+  Qed.
+
+  Lemma g_refine_sound : forall tm e a c, ggamma a c -> gcond tm e c -> ggamma (g_refine tm e a) c.
+  Proof.
+    intros tm e a c Hg Hc. unfold g_refine. destruct (edge_bound tm e) as [[r b]|] eqn:E; auto.
+    pose proof Hg as [Hl [Hr _]].
+    eapply ggamma_regs with (a := a) (c := c); eauto; try (intro; reflexivity).
+    - unfold setr; cbn [ar]. now rewrite upd_length.
+    - intros x Hlt. rewrite getr_setr by auto.
+      destruct (Nat.eqb x r) eqn:Ex; cbn [andb]; [|apply (Hr x Hlt)].
+      apply Nat.eqb_eq in Ex. subst x. replace (r <? 16)%nat with true by (symmetry; now apply Nat.ltb_lt).
+      apply ub_refine_sound; [apply (Hr r Hlt)|]. intro Hv. eapply edge_bound_sound; eauto.
+  Qed.
+
   (* what "restored" means concretely *)
   Definition restored_conc (pres : N) (c : cstate) : Prop :=
     cv (cr c RSP) = R0 RSP /\
@@ -650,7 +877,7 @@ Section Gpr.
   Theorem gclaim_sound : forall f,
     check_gclaim claims f = true ->
     forall c tm c', entry_state c ->
-    run cstate gbstep (cfg_of f) 1%positive c tm c' ->
+    run cstate gbstep gcond (cfg_of f) 1%positive c tm c' ->
     match tm with
     | TRet | TTail _ | TTailInd => restored_conc (cl_pres (claims (fid f))) c'
     | TBad => False
@@ -658,9 +885,10 @@ Section Gpr.
     end.
   Proof.
     intros f Hchk c tm c' Hent Hrun. unfold check_gclaim in Hchk.
-    destruct (analyse_sound astate cstate (fun b => gtf_list claims (bg b)) g_join g_leq
-                (g_term_ok claims (cl_pres (claims (fid f)))) ggamma gbstep) with (f := f) (init := g_init)
+    destruct (analyse_sound astate cstate (fun b => gtf_list claims (bg b)) g_refine g_join g_wjoin g_leq
+                (g_term_ok claims (cl_pres (claims (fid f)))) ggamma gbstep gcond) with (f := f) (init := g_init)
                 (c := c) (tm := tm) (c' := c') as [a' [Hg Hok]]; auto.
+    - apply g_refine_sound.
     - intros b a a0 c0 c1 H1 H2 H3. eapply gtf_list_sound; eauto.
     - apply g_leq_sound.
     - now apply g_init_gamma.
@@ -674,7 +902,7 @@ Section Gpr.
   Theorem abi_check_sound : forall f,
     check_c19 claims f = true ->
     forall c tm c', entry_state c ->
-    run cstate gbstep (cfg_of f) 1%positive c tm c' ->
+    run cstate gbstep gcond (cfg_of f) 1%positive c tm c' ->
     (tm = TRet \/ tm = TTailInd \/ exists g, tm = TTail g) ->
     cv (cr c' RSP) = R0 RSP /\
     cv (cr c' 3) = R0 3%nat /\ cv (cr c' 5) = R0 5%nat /\ cv (cr c' 12) = R0 12%nat /\
